@@ -31,6 +31,15 @@ pub enum Mode {
 }
 
 pub fn mode() -> Mode {
+    #[cfg(qe_verif)]
+    if let Some(m) = crate::verif::knobs::get("ipc.mode") {
+        // lets one simulated process visit QE_IPC_CACHE=0 / unset / 1
+        return match m {
+            0 => Mode::Off,
+            1 => Mode::Auto,
+            _ => Mode::Build,
+        };
+    }
     static M: std::sync::OnceLock<Mode> = std::sync::OnceLock::new();
     *M.get_or_init(|| match std::env::var("QE_IPC_CACHE").as_deref() {
         Ok("0") => Mode::Off,
